@@ -113,3 +113,23 @@ Proof.
 Qed.
 End P2.
 Print Assumptions C13_gram_form_is_the_moore_penrose_inverse.
+
+From Coq Require Import Lra.
+From QVT Require Import Norms RSPmono.
+(* the deterministic core of "expected decrease": a sketch-and-project step never increases the Frobenius distance to ANY matrix that solves the sketched
+   equation -- to the pseudoinverse in particular, whatever the random sketch: with Z Y = I and Y Z Hermitian (Z = Y^+, the QR answer and the
+   normal-equations answer alike),  ||X' - Xs||_F^2 = ||X - Xs||_F^2 - ||(X - Xs) Y Z||_F^2 *)
+Theorem C13_projection_step_error_identity (C : CRing) m n r (X Xs Y Omega Z : qmat C) :
+  meq n r (qmm m Xs Y) Omega -> meq r r (qmm m Z Y) qmid -> meq m m (qherm (qmm r Y Z)) (qmm r Y Z) ->
+  frob2 n m (qmsub (rsp_step C m n r X Y Omega Z) Xs) =
+  csub (frob2 n m (qmsub X Xs)) (frob2 n m (qmm m (qmsub X Xs) (qmm r Y Z))).
+Proof. exact (rsp_step_error_norm C m n r X Xs Y Omega Z). Qed.
+Theorem C13_projection_step_never_increases_the_error m n r (X Xs Y Omega Z : qmat RR) :
+  meq n r (qmm m Xs Y) Omega -> meq r r (qmm m Z Y) qmid -> meq m m (qherm (qmm r Y Z)) (qmm r Y Z) ->
+  (frob2 n m (qmsub (rsp_step RR m n r X Y Omega Z) Xs) <= frob2 n m (qmsub X Xs))%R.
+Proof.
+  intros H1 H2 H3. rewrite (rsp_step_error_norm RR m n r X Xs Y Omega Z H1 H2 H3). cbn [car csub RR].
+  pose proof (frob2_nonneg n m (qmm m (qmsub X Xs) (qmm r Y Z))). lra.
+Qed.
+Print Assumptions C13_projection_step_error_identity.
+Print Assumptions C13_projection_step_never_increases_the_error.
